@@ -391,7 +391,9 @@ def replay(rep):
     L = [min(3, max(1, vals.get("L%d" % k, 1))) for k in range(n)]
     K = [vals.get("t%d" % k, 0) for k in range(n)]
     if any(k == DELAYED for k in K):
-        return (None, "delay slots have no x86-64 counterpart (stub only)")
+        # delay slots have no x86-64 counterpart: re-run the harness CONCRETELY (python ints for lengths, base and kinds)
+        # on the real lsweep / block / graph code behind the same decoder stub
+        return replay_concrete(rep)
     data = b"".join(bytes.fromhex(X64[(K[k], L[k])]) for k in range(n))
     starts = [0]
     for l in L:
@@ -470,6 +472,32 @@ def replay(rep):
     if fails:
         return (True, "; ".join(fails[:3]))
     return (False, "holds on the x86-64 stream %s" % data.hex())
+
+
+def replay_concrete(rep):
+    what, vals = rep["what"], rep["vals"]
+    fn = make_sweep_fn(what[1], what[2]) if what[0] == "sweep" else make_cfg_fn(what[1], list(what[2]))
+    E = symx.Engine()
+    E.concrete = dict(vals)
+    symx.Engine.cur = E
+    E.path = symx.Path()
+    E.solver = z3.Solver()
+    E.trail, E.prefix, E.work = [], [], []
+    E.model_valid = False
+    E.known = []
+    try:
+        try:
+            fn(E)
+        except symx.PathAbort:
+            pass
+        except Exception as ex:
+            return (True, "concrete run behind the decoder stub raises %s(%s)" % (type(ex).__name__, str(ex)[:80]))
+    finally:
+        symx.Engine.cur = None
+    for label, verdict, _ in E.path.obls:
+        if verdict == "sat":
+            return (True, "concrete run behind the decoder stub (lengths %s, kinds %s): %s" % ([vals.get("L%d" % k) for k in range(what[1])], [vals.get("t%d" % k, 0) for k in range(what[1])], label))
+    return (False, "holds on the concrete run behind the decoder stub")
 
 
 def coverage(agg, tier):
